@@ -34,7 +34,9 @@ Inductive case :=
 | CaseSub (lhs rhs out : rl)                                          (* resources.Subtract *)
 | CaseP (exact : bool) (limits : rl) (existing : list (nstate * rl)) (claims : list (list itype))
         (final_remaining : rl) (launched : list rl)                   (* Scheduler.Solve, one pool *)
-| CaseS (limit : Z) (hops : list hop) (sobs : list sobs).             (* static provisioning controller *)
+| CaseS (limit : Z) (hops : list hop) (sobs : list sobs)              (* static provisioning controller *)
+| CaseMk (tracked : list name) (hist : list mop)
+         (obs : list (name * bool)) (expected : list (name * bool)).  (* Cluster mark/unmark history *)
 
 Definition set_eqb (a b : list name) : bool :=
   Nat.eqb (List.length a) (List.length b) && forallb (fun x => mem x b) a.
@@ -212,6 +214,13 @@ Definition check_case (c : case) : list string :=
       if rl_eqb (subtract lhs rhs) out then [] else ["corr:Subtract"]
   | CaseP exact limits existing claims final launched => checkP exact limits existing claims final launched
   | CaseS limit hops obs => checkS (fun _ => limit) limit (sys0) hops obs
+  | CaseMk tracked hist obs expected =>
+      (* obs: MarkedForDeletion() of every node the real Cluster still tracks; expected: what the harness assumed
+         when it computed which nodes count against the limits *)
+      let s := mrun tracked hist in
+      let ok (l : list (name * bool)) :=
+        set_eqb (m_tracked s) (map fst l) && forallb (fun nb => Bool.eqb (mem (fst nb) (m_marked s)) (snd nb)) l in
+      (if ok obs then [] else ["corr:mark-history"]) ++ (if ok expected then [] else ["corr:harness-mark-bookkeeping"])
   end.
 
 Definition check_all (cs : list (Z * case)) : list (Z * string) :=
